@@ -127,6 +127,10 @@ func (c *fnCtx) function() {
 	if fn.ctor != nil {
 		recvType, targs = fn.ctor.tname, fn.ctor.targs
 	}
+	if fn.pooled != nil {
+		recvType, targs = fn.pooled.tname, nil
+	}
+	c.sx = &fnCtxX{}
 	var fieldNames []string
 	fieldTypes := map[string]ast.Expr{}
 	if fn.namedRecv {
@@ -164,12 +168,16 @@ func (c *fnCtx) function() {
 	if fn.ctor != nil {
 		c.body = &ast.BlockStmt{Lbrace: fd.Body.Lbrace, List: fn.ctor.rest, Rbrace: fd.Body.Rbrace}
 	}
+	if fn.pooled != nil {
+		c.body = &ast.BlockStmt{Lbrace: fd.Body.Lbrace, List: fn.pooled.rest, Rbrace: fd.Body.Rbrace}
+	}
 	fn.retRecv = fn.ctor != nil || c.returnsRecv(fd, recvType)
 	for _, f := range fieldNames {
 		if o := c.objectField(recvType, f, fieldTypes[f]); o != nil {
 			c.objs[f] = o
 		}
 	}
+	c.scanObjVars(fd) // fn_stdobj.go: object parameters (buf *bytes.Buffer) and pooled objects
 
 	// ---- which parameters are function values called for effect only (logged)
 	paramFuncNoRes := map[string]bool{}
@@ -230,6 +238,9 @@ func (c *fnCtx) function() {
 				c.lostAt(v, "function literal (only as an argument of a translated function or of a declared external function)")
 			}
 		case *ast.GoStmt, *ast.DeferStmt, *ast.SelectStmt, *ast.SendStmt, *ast.TypeSwitchStmt, *ast.LabeledStmt:
+			if c.poolPutDefer(n) {
+				return false // defer pool.Put(x) right after x := pool.Get().(*T)
+			}
 			c.lostAt(n, "statement %T", n)
 		case *ast.AssignStmt:
 			for _, l := range v.Lhs {
@@ -414,6 +425,9 @@ func (c *fnCtx) function() {
 		if c.readOnlyPtrParams(f) {
 			continue
 		}
+		if c.objParams(f) {
+			continue // fn_stdobj.go: x *pkg.T of the standard library: an object handed in and back
+		}
 		t, isPtr := c.paramTypeOf(f.Type)
 		if len(f.Names) == 0 {
 			c.lostAt(f, "unnamed parameter")
@@ -550,13 +564,14 @@ func (c *fnCtx) function() {
 		}
 		return c.retTerm(nil)
 	}
-	for _, t := range fn.results {
-		if t.k == "obj" {
+	c.objResults(fd) // fn_stdobj.go: `return s.buf` for an interface result: the object itself
+	for i, t := range fn.results {
+		if t.k == "obj" && !c.sx.objResult[i] {
 			c.lostAt(fd, "result of type %s (aliasing)", t.k)
 		}
 	}
 	for _, p := range fn.params {
-		if p.v != nil && p.v.typ.k == "obj" {
+		if p.v != nil && p.v.typ.k == "obj" && !c.sx.isObjVar(p.v) {
 			c.lostAt(fd, "parameter %s of type %s (aliasing)", p.goName, p.v.typ.k)
 		}
 	}
@@ -595,6 +610,8 @@ func (c *fnCtx) zeroOf(t *fnType, at ast.Node) string {
 		}
 	case "elem":
 		return c.zeroVar(t.name).name
+	case "err":
+		return "ENil"
 	case "ptr":
 		return "(@None " + parenT(t.elem.coq()) + ")"
 	case "view":
@@ -865,8 +882,10 @@ func (t *fnType) mentionsT(set map[string]bool) {
 		}
 	case "obj":
 		set[t.name] = true
-	case "ptr", "sres":
+	case "ptr", "sres", "table":
 		t.elem.mentionsT(set)
+	case "opaque":
+		set[t.name] = true
 	case "map":
 		t.key.mentionsT(set)
 		t.elem.mentionsT(set)
@@ -1016,6 +1035,7 @@ func (c *fnCtx) emit(body term) {
 	fn.fuel = c.fuel
 	doc := strings.ReplaceAll(strings.ReplaceAll(src(&ast.FuncDecl{Recv: fn.decl.Recv, Name: fn.decl.Name, Type: fn.decl.Type}), "(*", "( *"), "*)", "* )")
 	b.WriteString("(* " + doc + " *)\n")
+	b.WriteString(c.g.normComment(fn)) // fn_stdobj.go: the normalised source when a switch was rewritten
 	if vd := c.viewBaseDoc(); vd != "" {
 		b.WriteString("(* slice fields: " + vd + " *)\n")
 	}
@@ -1309,6 +1329,9 @@ func (c *fnCtx) constVal(e ast.Expr) (int64, bool) {
 			return n, ok
 		}
 	case *ast.Ident:
+		if x, ok := c.localConst(v); ok {
+			return c.constVal(x) // fn_err.go: a constant declared inside the function
+		}
 		if v.Obj != nil && v.Obj.Kind == ast.Con {
 			if x, ok := c.g.consts[v.Name]; ok {
 				return c.constVal(x)
@@ -1374,10 +1397,16 @@ func (c *fnCtx) expr(e ast.Expr, pre *[]fnBind) (string, *fnType) {
 			}
 			return x.name, x.typ
 		}
+		if x, ok := c.localConst(v); ok {
+			return c.expr(x, pre) // fn_err.go: a constant declared inside the function
+		}
 		if v.Obj != nil && v.Obj.Kind == ast.Con {
 			if x, ok := c.g.consts[v.Name]; ok {
 				return c.expr(x, pre)
 			}
+		}
+		if s, t := c.globalTable(v); t != nil {
+			return s, t // fn_stdobj.go: a package-level table that is never assigned: a constant of the file
 		}
 		c.lostAt(v, "identifier %s", v.Name)
 	case *ast.SelectorExpr:
@@ -1400,6 +1429,9 @@ func (c *fnCtx) expr(e ast.Expr, pre *[]fnBind) (string, *fnType) {
 			if n, ok := mathConsts[v.Sel.Name]; ok {
 				return n, tyUntyped
 			}
+		}
+		if s, t := c.errSelector(v); t != nil {
+			return s, t // fn_err.go: io.EOF
 		}
 		if s, t := c.foreignConst(v, pre); t != nil {
 			return s, t
@@ -1465,6 +1497,8 @@ func (c *fnCtx) expr(e ast.Expr, pre *[]fnBind) (string, *fnType) {
 			}
 		case "string":
 			et = tyByte
+		case "table":
+			et = t.elem // a package-level table (fn_stdobj.go)
 		default:
 			c.lostAt(v, "indexing %s", src(v.X))
 		}
@@ -1709,6 +1743,8 @@ func (c *fnCtx) binary(v *ast.BinaryExpr, pre *[]fnBind) (string, *fnType) {
 			s = "(match " + x + " with None => true | Some _ => false end)"
 		case yt.k == "ptr" && xt.k == "nil":
 			s = "(match " + y + " with None => true | Some _ => false end)"
+		case xt.k == "err" || yt.k == "err":
+			s = c.errEqual(v, x, xt, y, yt) // fn_err.go: err == nil, err == io.EOF
 		case xt.k == "elem" && yt.k == "elem" && xt.name == yt.name:
 			// == on a comparable type parameter: the function argument eqb_<T>
 			s = "(" + c.mapEqbVar(&fnType{k: "map", key: xt}).name + " " + x + " " + y + ")"
